@@ -134,8 +134,12 @@ func VerifRegDiff(args []string) {
 	s1.MaxDepth, s2.MaxDepth = 80, 80
 	r1 := verifRunSession(s1, o1, vals, args)
 	r2 := verifRunSession(s2, o2, vals, args)
+	at := "#" + strings.ReplaceAll(strings.Join(args, " | "), "\n", " ")
+	if len(at) > 140 {
+		at = at[:140]
+	}
 	for i := range args {
-		verifSameOutcome(r1[i], r2[i], "registers")
+		verifSameOutcome(r1[i], r2[i], "registers"+at)
 		if r1[i].panics == "" && !r1[i].isErr {
 			vReach("input completed")
 		}
